@@ -1,7 +1,10 @@
 import FitProps.FileDefLemmas
+import FitProps.FileDefOrderLemmas
 import FitProps.FileDefContentLemmas
 import FitProps.C13
-import FitProps.ListenerLemmas
+import FitProps.ListenerKLemmas
+import FitProps.ListenerKTermLemmas
+import FitProps.ListenerKLegacyLemmas
 /-! # C14 — File types conserve messages; the concurrent listener equals sequential building
 
 First half: the 17 common file types (`Fit.FileDef`, tables regenerated from /repo on every run).
@@ -98,6 +101,56 @@ theorem C14_sorted_suffix {T : FileType} (hT : T ∈ fileTypes) (msgs : List Msg
   obtain ⟨fid, _, h⟩ := G.output_shape absC absC_lawful (C14_tables_ok T hT) msgs
   exact ⟨fid, h⟩
 
+/-- **The regenerated table is the table of the 17 file types**: the probe (which walks `filedef.PredefinedFileSet()`)
+found exactly the file types device, settings, sport, activity, workout, course, schedules, weight, totals, goals,
+blood_pressure, monitoring_a, activity_summary, monitoring_daily, monitoring_b, segment, segment_list — by `type` byte and
+by Go type. A file type that disappears from the registry (or from the probe) cannot pass: `∀ T ∈ fileTypes` in every
+theorem of this file ranges over these 17. -/
+theorem C14_file_types_pinned :
+    fileTypes.map (·.ftype) = [1, 2, 3, 4, 5, 6, 7, 9, 10, 11, 14, 15, 20, 28, 32, 34, 35] ∧
+    fileTypes.map (·.gotype) = ["filedef.Device", "filedef.Settings", "filedef.Sport", "filedef.Activity", "filedef.Workout",
+      "filedef.Course", "filedef.Schedules", "filedef.Weight", "filedef.Totals", "filedef.Goals", "filedef.BloodPressure",
+      "filedef.MonitoringAB", "filedef.ActivitySummary", "filedef.MonitoringDaily", "filedef.MonitoringAB", "filedef.Segment",
+      "filedef.SegmentList"] := by
+  decide
+
+/-- **Stability in terms of ARRIVAL order, within a kind** (all 17 file types, sorted or not). `C14_sort_stable` /
+`C14_sorted_stable_partial` state stability against the *emission* order (slot by slot); between two messages of
+DIFFERENT kinds with the same timestamp that order is the file type's slot order, not the order of arrival. Within one
+kind it IS the order of arrival: for every message number `n` (other than file_id, of which there is one) and every
+timestamp key `k` (`none` = no timestamp field), the messages of number `n` and key `k` appear in the output in exactly
+the order in which the file keeps them — the input order (of the last occurrence, for single-valued kinds). -/
+theorem C14_stable_within_kind {T : FileType} (hT : T ∈ fileTypes) (msgs : List Msg) (n : Nat) (hn : n ≠ mesgNumFileId)
+    (k : Option Nat) :
+    (toFIT T (build T msgs)).filter (fun m => m.num == n && decide (key m = k)) =
+      (keepLastDecl T (msgs.map (normT T))).filter (fun m => m.num == n && decide (key m = k)) :=
+  G.stable_within_kind absC absC_lawful (C14_tables_ok T hT) msgs n hn k
+
+/-- the file types that do not sort everything after the prefix (class of KF-C14-2) are among eight named ones, and each of
+them sorts exactly its unrelated messages (`sortFrom = slots.length`) or nothing (`slots.length + 1`). Holds before and
+after a repair of KF-C14-2 (a repaired type has `sortFrom = 3`); a NINTH type that stops sorting breaks it. -/
+def kf2Names : List String := ["device", "settings", "sport", "workout", "schedules", "goals", "segment", "segment_list"]
+
+theorem C14_KF2_class : ∀ T ∈ fileTypes, T.sortFrom = 3 ∨
+    (T.name ∈ kf2Names ∧ (T.sortFrom = T.slots.length ∨ T.sortFrom = T.slots.length + 1)) := by
+  decide
+
+/-- **What the file types of KF-C14-2 do guarantee** (any file type with `slots.length ≤ sortFrom`; by `C14_KF2_class`
+every file type that does not have `sortFrom = 3`): after file_id / developer_data_id / field_description come the typed
+messages kind by kind in the file type's fixed order, each kind in arrival order — NOT ordered by timestamp (that is the
+finding) —, then the unrelated messages, which ARE the unique stable sort by timestamp of the unrelated messages in arrival
+order when `sortFrom = slots.length` (device, settings, sport, schedules, goals, segment, segment_list) and are left in
+arrival order when the type sorts nothing (workout). Nothing is lost or duplicated (`C14_conservation`) and the order within
+a kind and timestamp is the arrival order (`C14_stable_within_kind`) for these types as for the others. -/
+theorem C14_sorted_unrelated_only {T : FileType} (hT : T ∈ fileTypes) (hs : T.slots.length ≤ T.sortFrom) (msgs : List Msg) :
+    ∃ fid, OutputShape T msgs fid
+      (G.typedRest absC T (build T msgs) ++
+        (if T.sortFrom = T.slots.length then sortStable (G.unrelated absC T (build T msgs)) else G.unrelated absC T (build T msgs))) ∧
+    Sorted (sortStable (G.unrelated absC T (build T msgs))) ∧
+    (∀ k, withKey k (sortStable (G.unrelated absC T (build T msgs))) = withKey k (G.unrelated absC T (build T msgs))) := by
+  obtain ⟨fid, h⟩ := G.sorted_unrelated_only absC absC_lawful (C14_tables_ok T hT) hs msgs
+  exact ⟨fid, h, G.sortStable_sorted absC _, fun k => G.sortStable_withKey absC k _⟩
+
 /-- non-vacuity: a message list with a file_id (hypothesis of `C14_conservation`), one without; the activity file type is
 in the regenerated table and sorts from the end of the prefix -/
 example : hasFileId [{ (default : Msg) with num := 0, tag := 1 }, { (default : Msg) with num := 20, tag := 2 }] = true ∧
@@ -128,6 +181,11 @@ theorem C14_KF2_witness :
     (toFIT pinnedWorkout (build pinnedWorkout kf2Msgs)).drop 1 ≠
       sortStable ((restGroups pinnedWorkout (build pinnedWorkout kf2Msgs)).flatten)
     ∧ sortedB ((toFIT pinnedWorkout (build pinnedWorkout kf2Msgs)).drop 1) = false := by decide
+
+/-- non-vacuity of the hypothesis of `C14_sorted_unrelated_only` (on the pinned copy of today's workout table, so that it
+keeps checking when KF-C14-2 is repaired), and what it yields there: the two records stay in arrival order 2, 1 -/
+example : pinnedWorkout.slots.length ≤ pinnedWorkout.sortFrom ∧
+    ((toFIT pinnedWorkout (build pinnedWorkout kf2Msgs)).map (·.tag)) = [1, 2, 3] := by decide
 
 /-! ### The file types on real protocol messages: the link to C13
 
@@ -245,6 +303,15 @@ theorem C14_content_first_sentence_partial {FT : FileType} (hT : FT ∈ fileType
     simp only [Nat.sub_self, List.take_zero, List.flatten_nil, List.nil_append, List.drop_zero]
     exact ⟨rfl, G.sortStable_sorted C _, fun k => G.sortStable_withKey C k _⟩
 
+/-- **Stability in terms of arrival order, on real messages** (every file type): output messages of one number (not file_id)
+whose emitted timestamp key is the same appear in the order in which their input messages arrived -/
+theorem C14_content_stable_within_kind {FT : FileType} (hT : FT ∈ fileTypes) (fac : Nat → Nat → Field) (o : Options)
+    (ms : List Message) (f : List Stored) (h : buildC FT ms = .ok f) (n : Nat) (hn : n ≠ mesgNumFileId) (k : Option Nat) :
+    (toFITC fac o FT f).filter (fun m => m.num == n && decide ((msgC fac o).key m = k)) =
+      (G.keepLastDecl (msgC fac o) FT (ms.map (normC fac o FT))).filter (fun m => m.num == n && decide ((msgC fac o).key m = k)) := by
+  rw [C14_content_model_eq fac o FT ms f h]
+  exact G.stable_within_kind (msgC fac o) (msgC_lawful fac o) (C14_tables_ok FT hT) ms n hn k
+
 /-- the same for an input without file_id: one zero-valued file_id (`mesgdef.FileId{}.ToMesg`) is emitted in front -/
 theorem C14_content_conservation_no_file_id {FT : FileType} (hT : FT ∈ fileTypes) (fac : Nat → Nat → Field) (o : Options)
     (ms : List Message) (f : List Stored) (h : buildC FT ms = .ok f) (hfid : G.hasFileId (msgC fac o) ms = false) :
@@ -277,114 +344,239 @@ example : allBased exContent = true ∧ G.hasFileId (msgC stdField { includeExpa
 
 end Content
 
-/-! ## Second half: the concurrent listener (`Fit.Listener`, a transition system over listener.go)
+/-! ## Second half: the concurrent listener (`Fit.ListenerK`, a transition system over listener.go, options included)
 
 Quantifiers: **every** channel-buffer size N ≥ 0 (initially and in every `Reset`; size 0 = unbuffered message channel and a
-one-slice pool, as the code does since the repair of KF-C14-1), every script of `OnMesg` / `File` / `Close` / `Reset` calls of
-any length (chained sequences, reuse after Reset/Close, Reset from n to 0 and back), every interleaving of producer and worker
-(`Reachable` closes over both threads' steps). Generic in the message type and in `processMesg`. No theorem below has a
-hypothesis on N or on the script.
+one-slice pool, as the code does since the repair of KF-C14-1), **every file set** (`κ`: what `WithFileSets` / `WithFileFunc`
+leave in `l.options.fileSets`, initially and in every `Reset`; generic — any constructor, any `File` implementation), every
+script of `OnMesg` / `File` / `Close` / `Reset` calls of any length (chained sequences, reuse after Reset/Close, Reset from n
+to 0 and back), every interleaving of producer and worker (`Reachable` closes over both threads' steps). Generic in the
+message type and in `processMesg` (`proc k` = `processMesg` under the file sets `k`; the worker reads the file sets from
+the state when it processes a message, `Reset` writes them). No theorem below has a hypothesis on N, the file sets or the script.
 
 Runtime truth vs. proved: the theorems are about the model's channel semantics (Go spec: buffered send/receive, unbuffered
-rendezvous, close) and its slice tokens. That the compiled listener has no word-level data race is sampled with the race
-detector (thorough tier), not proved; what is proved is that in the model no slice and no access to `l.file` is ever
-shared between the two threads (`C14_listener_inv`). -/
+rendezvous, close), its slice tokens and its three kinds of shared memory cells. That the compiled listener has no
+word-level data race is sampled with the race detector (thorough tier), not proved; what is proved is that the model
+has none (`C14_listener_no_data_race`, from the invariant) and that the access annotation it is stated with accounts for
+every write of either thread (`C14_listener_access_frame`). -/
 section Listener
-open Fit.Listener
-variable {M σ : Type} (proc : σ → M → σ) (init : σ)
+open Fit.ListenerK
+variable {M σ κ : Type} (proc : κ → σ → M → σ) (init : σ)
 
 /-- **Exclusive ownership** (`listener_inv`): in every reachable state every pooled slice is in exactly one place —
 pool channel, message queue, producer's hands, worker's hands (no duplicates among them) — and none is lost
 (`cap(l.poolc)` = max(N, 1) in total, so at least one slice circulates even with buffer size 0); the message channel never
-holds more than its capacity N; the producer touches the file cell (`File` reads it, `reset()` overwrites it — both only
-after `<-l.done` or while inactive) only when the worker has exited. -/
-theorem C14_listener_inv {N : Nat} {script : List (Cmd M)} {s : St M σ}
-    (hr : Reachable proc init N script s) :
+holds more than its capacity N; `done` is closed exactly when the worker has exited, and an inactive listener has no worker. -/
+theorem C14_listener_inv {N : Nat} {k0 : κ} {script : List (Cmd M κ)} {s : St M σ κ}
+    (hr : Reachable proc init N k0 script s) :
     (tokens s).Nodup ∧ (tokens s).length = s.P ∧ s.P = max s.N 1 ∧ s.queue.length ≤ s.N ∧
     (s.done = true ↔ s.c = .exited) ∧ (s.active = false → s.c = .exited) := by
   have inv := inv_reachable proc init hr
   exact ⟨inv.nodup, inv.count, inv.capP, inv.qcap, inv.doneIff, fun h => (inv.inactive h).2⟩
 
-/-- **Deadlock freedom**: in every reachable state in which the producer still has calls to make or to finish, some
-thread can take a step — for every buffer size N ≥ 0, every script and every interleaving. -/
-theorem C14_listener_deadlock_free {N : Nat} {script : List (Cmd M)} {s : St M σ}
-    (hr : Reachable proc init N script s) (hfin : isFin s.p = false) : ∃ s', Step proc init s s' := by
+/-- **No data race** ("without … data race", for the model): in every reachable state, no memory access of the
+producer's next step conflicts with a memory access of the worker's next step — the cells are `l.file`, `l.options`
+(the file sets) and the memory of each pooled slice; `accP` / `accC` list the reads and writes of the next step of each
+thread as the code makes them (empty when that step is blocked in the channel operation that precedes the access); two
+accesses conflict when they are to the same cell and one is a write. Derived from the invariant (a slice about to be
+written by `OnMesg` / `Close` is in the pool, the slice `processMesg` reads is in the worker's hands; `File` / `Reset` /
+`reset()` touch `l.file` and `l.options` only after `<-l.done` or while inactive, when the worker has exited). -/
+theorem C14_listener_no_data_race {N : Nat} {k0 : κ} {script : List (Cmd M κ)} {s : St M σ κ}
+    (hr : Reachable proc init N k0 script s) : ∀ a ∈ accP s, ∀ b ∈ accC s, conflict a b = false :=
+  no_race proc init (inv_reachable proc init hr)
+
+/-- **The access annotation is complete for writes**: a step of the producer that changes `l.file`, `l.options` or the
+content of a slice has that write in `accP`; a step of the worker never changes `l.options` or a slice, and changes `l.file`
+only with the write in `accC`. (So `C14_listener_no_data_race` is not about an annotation that forgot a write.) -/
+theorem C14_listener_access_frame {s s' : St M σ κ} :
+    (stepP init s = some s' →
+      (s'.file ≠ s.file → ⟨.file, true⟩ ∈ accP s) ∧ (s'.cfg ≠ s.cfg → ⟨.cfg, true⟩ ∈ accP s) ∧
+      (∀ t, s'.mem t ≠ s.mem t → ⟨.slice t, true⟩ ∈ accP s)) ∧
+    (stepC proc s = some s' →
+      (s'.file ≠ s.file → ⟨.file, true⟩ ∈ accC s) ∧ s'.cfg = s.cfg ∧ (∀ t, s'.mem t = s.mem t)) :=
+  ⟨accP_frame init, accC_frame proc⟩
+
+/-- **Deadlock freedom (progress)**: in every reachable state in which the producer still has calls to make or to finish,
+some thread can take a step — for every buffer size N ≥ 0, every file set, every script and every interleaving. -/
+theorem C14_listener_progress {N : Nat} {k0 : κ} {script : List (Cmd M κ)} {s : St M σ κ}
+    (hr : Reachable proc init N k0 script s) (hfin : isFin s.p = false) : ∃ s', Step proc init s s' := by
   rcases progress proc init (inv_reachable proc init hr) hfin with h | h
   · obtain ⟨s', hs'⟩ := Option.isSome_iff_exists.mp h; exact ⟨s', Or.inl hs'⟩
   · obtain ⟨s', hs'⟩ := Option.isSome_iff_exists.mp h; exact ⟨s', Or.inr hs'⟩
 
 /-- the same in the words of the former known finding KF-C14-1 (whose theorem exhibited a reachable `Deadlocked` state for
 buffer size 0): no reachable state is deadlocked, whatever the buffer sizes. -/
-theorem C14_listener_never_deadlocked {N : Nat} {script : List (Cmd M)} {s : St M σ}
-    (hr : Reachable proc init N script s) : ¬ Deadlocked proc init s := by
+theorem C14_listener_never_deadlocked {N : Nat} {k0 : κ} {script : List (Cmd M κ)} {s : St M σ κ}
+    (hr : Reachable proc init N k0 script s) : ¬ Deadlocked proc init s := by
   intro ⟨hfin, hp, hc⟩
   rcases progress proc init (inv_reachable proc init hr) hfin with h | h
   · rw [hp] at h; cases h
   · rw [hc] at h; cases h
 
 /-- **The listener equals sequential execution** (`listener_fifo` ⇒): whenever the producer has made all its calls, the
-files handed out by `File()` are exactly those of the same calls executed by one thread without pool, queue or worker —
-for every buffer size N ≥ 0. -/
-theorem C14_listener_eq_sequential {N : Nat} {script : List (Cmd M)} {s : St M σ}
-    (hr : Reachable proc init N script s) (hfin : isFin s.p = true) :
-    s.results = seqRun proc init true init script :=
+files handed out by `File()` are exactly those of the same calls executed by one thread without pool, queue or worker
+(under the file sets each `Reset` installs) — for every buffer size N ≥ 0. -/
+theorem C14_listener_eq_sequential {N : Nat} {k0 : κ} {script : List (Cmd M κ)} {s : St M σ κ}
+    (hr : Reachable proc init N k0 script s) (hfin : isFin s.p = true) :
+    s.results = seqRun proc init k0 true init script :=
   final_results proc init (inv_reachable proc init hr) hfin
+
+/-- **Termination** ("without deadlock" made "always terminates with the sequential result"). The measure `mu` (cost of the
+calls left, each priced with the pool capacity it will run under, + rest of the producer's call + 3 per queued message +
+rest of the worker's iteration) decreases on EVERY step of either thread, from any state. Hence, for every reachable
+state `s`: (1) there is no infinite run from `s`; (2) no run from `s` is longer than `mu s` (for the initial state:
+`scriptCost (max N 1) script + 2`, linear in the script and the buffer sizes); (3) some run from `s` ends with the producer
+finished; (4) EVERY run that cannot be continued has the producer finished — all calls made and returned — and has
+handed out exactly the files of the sequential execution. -/
+theorem C14_listener_terminates {N : Nat} {k0 : κ} {script : List (Cmd M κ)} {s : St M σ κ}
+    (hr : Reachable proc init N k0 script s) :
+    (∀ f : Nat → St M σ κ, f 0 = s → ¬ ∀ i, Step proc init (f i) (f (i + 1))) ∧
+    (∀ n s', Steps proc init n s s' → n ≤ mu s) ∧
+    (∃ n s', Steps proc init n s s' ∧ isFin s'.p = true) ∧
+    (∀ n s', Steps proc init n s s' → (∀ s'', ¬ Step proc init s' s'') →
+      isFin s'.p = true ∧ s'.results = seqRun proc init k0 true init script) ∧
+    mu (initSt init N k0 script : St M σ κ) = scriptCost (max N 1) script + 2 := by
+  refine ⟨fun f _ => no_infinite_run proc init f, fun n s' h => ?_, reaches_fin proc init (mu s) s (Nat.le_refl _) hr, ?_,
+    mu_initSt init N k0 script⟩
+  · have := steps_bound proc init h; omega
+  · intro n s' hsteps hstuck
+    have hr' := steps_reachable proc init hr hsteps
+    cases hfin : isFin s'.p with
+    | true => exact ⟨rfl, final_results proc init (inv_reachable proc init hr') hfin⟩
+    | false =>
+      obtain ⟨s'', hs''⟩ := C14_listener_progress proc init hr' hfin
+      exact absurd hs'' (hstuck s'')
 
 /-- **No carry-over**: whenever the listener is inactive (after `File`/`Close`) the worker is gone, the queue is empty
 and all `cap(l.poolc)` slices are back in the pool (distinct); the next `OnMesg` starts from the empty file cell. -/
-theorem C14_listener_no_carry_over {N : Nat} {script : List (Cmd M)} {s : St M σ}
-    (hr : Reachable proc init N script s) (ha : s.active = false) :
+theorem C14_listener_no_carry_over {N : Nat} {k0 : κ} {script : List (Cmd M κ)} {s : St M σ κ}
+    (hr : Reachable proc init N k0 script s) (ha : s.active = false) :
     s.c = .exited ∧ s.queue = [] ∧ s.pool.length = s.P ∧ s.pool.Nodup ∧
     ∀ m cs s', s.script = .onMesg m :: cs → stepP init s = some s' → s'.file = init ∧ s'.queue = [] ∧ s'.pool = s.pool :=
   no_carry_over proc init (inv_reachable proc init hr) ha
 
 /-- the run the driver prints (a seeded scheduler) is one of the interleavings the theorems quantify over -/
-theorem C14_listener_run_is_path {N : Nat} {script : List (Cmd M)} (pick : Nat → Bool) (fuel : Nat) :
-    Reachable proc init N script (run proc init pick fuel 0 (initSt init N script)) :=
+theorem C14_listener_run_is_path {N : Nat} {k0 : κ} {script : List (Cmd M κ)} (pick : Nat → Bool) (fuel : Nat) :
+    Reachable proc init N k0 script (run proc init pick fuel 0 (initSt init N k0 script)) :=
   run_reachable proc init pick fuel 0 _ Reachable.init
 
 /-- **Buffer size 0 hands over synchronously**: while the channel buffer size is 0 nothing is ever queued (the message goes
 from `OnMesg` straight into the worker's hands) and exactly one slice circulates. -/
-theorem C14_listener_unbuffered_handover {N : Nat} {script : List (Cmd M)} {s : St M σ}
-    (hr : Reachable proc init N script s) (h0 : s.N = 0) : s.queue = [] ∧ (tokens s).length = 1 := by
+theorem C14_listener_unbuffered_handover {N : Nat} {k0 : κ} {script : List (Cmd M κ)} {s : St M σ κ}
+    (hr : Reachable proc init N k0 script s) (h0 : s.N = 0) : s.queue = [] ∧ (tokens s).length = 1 := by
   have inv := inv_reachable proc init hr
   refine ⟨unbuffered_queue_empty proc init inv h0, ?_⟩
   rw [inv.count, inv.capP, h0]; rfl
 
 /-- **Buffer size 0 works** (replaces `C14_KF1_buffer0_deadlock` of the tree before the repair of KF-C14-1, F15): the two
 former deadlock witnesses — `NewListener(WithChannelBuffer(0))` and `Reset(WithChannelBuffer(0))`, then a message, then
-`File()` — have runs in which the producer finishes with the file of that message (by `C14_listener_eq_sequential` every
-finished run yields it, by `C14_listener_deadlock_free` no run gets stuck); `Reset` back to a larger size re-grows the pool.
+`File()` — have runs in which the producer finishes with the file of that message, processed under the file sets in force
+(`k1` after the first `Reset`, `k2` after the second); `Reset` back to a larger size re-grows the pool.
 These states also witness the hypotheses `isFin s.p = true` / `s.N = 0` of the theorems above (non-vacuity). -/
-theorem C14_listener_buffer0_completes (m m' : M) :
-    (∃ s : St M σ, Reachable proc init 0 [.onMesg m, .file] s ∧ isFin s.p = true ∧ s.results = [proc init m]) ∧
-    (∃ s : St M σ, Reachable proc init 2 [.reset 0, .onMesg m, .file, .reset 2, .onMesg m', .file] s ∧ isFin s.p = true ∧
-      s.results = [proc init m, proc init m'] ∧ s.P = 2 ∧ s.pool.length = 2) :=
-  ⟨buffer0_completes proc init m, buffer0_after_reset_completes proc init m m'⟩
+theorem C14_listener_buffer0_completes (k0 k1 k2 : κ) (m m' : M) :
+    (∃ s : St M σ κ, Reachable proc init 0 k0 [.onMesg m, .file] s ∧ isFin s.p = true ∧ s.results = [proc k0 init m]) ∧
+    (∃ s : St M σ κ, Reachable proc init 2 k0 [.reset 0 k1, .onMesg m, .file, .reset 2 k2, .onMesg m', .file] s ∧ isFin s.p = true ∧
+      s.results = [proc k1 init m, proc k2 init m'] ∧ s.P = 2 ∧ s.pool.length = 2) :=
+  ⟨buffer0_completes proc init k0 m, buffer0_after_reset_completes proc init k0 k1 k2 m m'⟩
 
 end Listener
 
-/-- **Listener = sequential building of a file**: for a sequence that starts with a file_id of a known file type `T` and has
-no other file_id, the one-thread specification (and therefore, by `C14_listener_eq_sequential`, the concurrent listener
-under every schedule and every N ≥ 0) yields exactly `filedef.NewT(msgs...)`. -/
-theorem C14_listener_builds_file {T : FileType} (fid : Msg) (rest : List Msg)
-    (h0 : fid.num = mesgNumFileId) (hT : fileTypeOf fid.ft = some T) (hrest : ∀ m ∈ rest, m.num ≠ mesgNumFileId) :
-    Listener.seqRun Listener.processMesg none true none ((fid :: rest).map .onMesg ++ [.file]) =
-      [some (T, build T (fid :: rest))] := by
-  rw [Listener.seqRun_onMesgs]
-  simp only [Listener.seqRun, List.foldl_cons, Listener.processMesg, h0, if_true, hT]
-  rw [Listener.foldl_processMesg T rest hrest]
-  rfl
+/-- **Listener = sequential building of a file, under any file sets**: for a sequence that starts with a file_id whose
+`type` the file sets in force map to (the constructor of) file type `T` — a predefined type under its own key, a
+predefined type under a key of the user's (`WithFileFunc(77, NewActivity)`), or any table at all — and has no other
+file_id, the one-thread specification (and therefore, by `C14_listener_eq_sequential`, the concurrent listener under every
+schedule and every N ≥ 0) yields exactly `T`'s file built from the messages; a file_id whose type has NO constructor in the
+file sets yields no file (`nil`) and every message of the sequence is skipped. -/
+theorem C14_listener_builds_file (fs : ListenerK.FileSets) {T : FileType} (fid : Msg) (rest : List Msg)
+    (h0 : fid.num = mesgNumFileId) (hrest : ∀ m ∈ rest, m.num ≠ mesgNumFileId) :
+    (fs fid.ft = some T →
+      ListenerK.seqRun ListenerK.processMesg none fs true none ((fid :: rest).map .onMesg ++ [.file]) =
+        [some (T, build T (fid :: rest))]) ∧
+    (fs fid.ft = none →
+      ListenerK.seqRun ListenerK.processMesg none fs true none ((fid :: rest).map .onMesg ++ [.file]) = [none]) := by
+  constructor
+  · intro hT
+    rw [ListenerK.seqRun_onMesgs]
+    simp only [ListenerK.seqRun, List.foldl_cons, ListenerK.processMesg, h0, if_true, hT]
+    rw [ListenerK.foldl_processMesg fs T rest hrest]
+    rfl
+  · intro hN
+    rw [ListenerK.seqRun_onMesgs]
+    simp only [ListenerK.seqRun, List.foldl_cons, ListenerK.processMesg, h0, if_true, hN]
+    have : ∀ l : List Msg, (∀ m ∈ l, m.num ≠ mesgNumFileId) → l.foldl (ListenerK.processMesg fs) none = none := by
+      intro l hl
+      induction l with
+      | nil => rfl
+      | cons m ms ih =>
+        have hm : m.num ≠ mesgNumFileId := hl m List.mem_cons_self
+        simp only [List.foldl_cons, ListenerK.processMesg, hm, if_false]
+        exact ih (fun x hx => hl x (List.mem_cons_of_mem _ hx))
+    rw [this rest hrest]
+
+/-- the option constructors: `WithFileFunc(t, fn)` overrides exactly the entry of `t`; `WithFileSets(map)` forgets the
+defaults (a type not in the map has no constructor); the default file sets are the 17 predefined types under their own keys -/
+theorem C14_listener_file_sets (fs : ListenerK.FileSets) (t : Nat) (T : Option FileType) (b : Nat) :
+    ListenerK.withFileFunc fs t T b = (if b = t then T else fs b) ∧
+    ListenerK.withFileSets [] b = none ∧
+    (∀ T' ∈ fileTypes, ∃ T'', ListenerK.defaultSets T'.ftype = some T'' ∧ T''.ftype = T'.ftype) := by
+  refine ⟨rfl, rfl, ?_⟩
+  decide
+
+/-- **The model without options is the model with options at the trivial configuration**: the listener model of
+`FitModel/Listener.lean` (on which theorems of C03 are stated, written before the options were modelled) embeds into the
+model above with `κ = Unit`: the embedding `toK` maps the initial state to the initial state, commutes with every step of
+the producer and of the worker, hence maps reachable states to reachable states, and the one-thread specifications
+coincide. Every theorem of this section therefore holds of the old model too, and every run of the old model is a run of
+the model the correspondence check executes. -/
+theorem C14_listener_legacy_is_instance {M σ : Type} (proc : σ → M → σ) (init : σ) (N : Nat) (script : List (Fit.Listener.Cmd M)) :
+    (∀ s : Fit.Listener.St M σ,
+      ListenerK.stepP init (ListenerK.Legacy.toK s) = (Fit.Listener.stepP init s).map ListenerK.Legacy.toK ∧
+      ListenerK.stepC (fun _ : Unit => proc) (ListenerK.Legacy.toK s) = (Fit.Listener.stepC proc s).map ListenerK.Legacy.toK) ∧
+    (∀ s, Fit.Listener.Reachable proc init N script s →
+      ListenerK.Reachable (fun _ : Unit => proc) init N () (script.map ListenerK.Legacy.cmdK) (ListenerK.Legacy.toK s)) ∧
+    ListenerK.seqRun (fun _ : Unit => proc) init () true init (script.map ListenerK.Legacy.cmdK) =
+      Fit.Listener.seqRun proc init true init script :=
+  ⟨fun s => ⟨ListenerK.Legacy.toK_stepP init s, ListenerK.Legacy.toK_stepC proc s⟩,
+   fun _ h => ListenerK.Legacy.toK_reachable proc init h, ListenerK.Legacy.toK_seqRun proc init true init script⟩
+
+/-- **Deadlock freedom of the model without options, as a corollary through the embedding** (this is the statement
+`FitProps/C03.lean` uses): a reachable non-final state of `FitModel/Listener.lean` embeds into a reachable non-final state of
+the model with options (`C14_listener_legacy_is_instance`), which can step (`C14_listener_progress`); the embedding commutes
+with the step functions, so the step is the image of a step of the old model. -/
+theorem C14_listener_deadlock_free {M σ : Type} (proc : σ → M → σ) (init : σ) {N : Nat} {script : List (Fit.Listener.Cmd M)}
+    {s : Fit.Listener.St M σ} (hr : Fit.Listener.Reachable proc init N script s) (hfin : Fit.Listener.isFin s.p = false) :
+    ∃ s', Fit.Listener.Step proc init s s' := by
+  have hrK := ListenerK.Legacy.toK_reachable proc init hr
+  have hfinK : ListenerK.isFin (ListenerK.Legacy.toK s).p = false := by
+    cases hp : s.p <;> simp [hp, Fit.Listener.isFin] at hfin <;> simp [ListenerK.Legacy.toK, ListenerK.Legacy.pcK, hp, ListenerK.isFin]
+  obtain ⟨x, hx⟩ := C14_listener_progress (fun _ : Unit => proc) init hrK hfinK
+  rcases hx with hx | hx
+  · rw [ListenerK.Legacy.toK_stepP] at hx
+    cases h : Fit.Listener.stepP init s with
+    | none => rw [h] at hx; cases hx
+    | some s' => exact ⟨s', Or.inl h⟩
+  · rw [ListenerK.Legacy.toK_stepC] at hx
+    cases h : Fit.Listener.stepC proc s with
+    | none => rw [h] at hx; cases hx
+    | some s' => exact ⟨s', Or.inr h⟩
 
 /-- non-vacuity: with buffer size 0 there are reachable states in which the producer is in the middle of `OnMesg`
-(`isFin = false`, hypothesis of `C14_listener_deadlock_free`; `N = 0`, hypothesis of `C14_listener_unbuffered_handover`) and
-reachable states in which the listener is inactive after `Close` (hypothesis of `C14_listener_no_carry_over`) -/
-example : ∃ s : Listener.St Msg Listener.FileCell,
-    Listener.Reachable Listener.processMesg none 0 [.onMesg default, .file] s ∧ Listener.isFin s.p = false ∧ s.N = 0 :=
-  ⟨_, Listener.reachable_runSched Listener.processMesg none [true, true] _ _ Listener.Reachable.init rfl, rfl, rfl⟩
+(`isFin = false`, hypothesis of `C14_listener_progress`; `N = 0`, hypothesis of `C14_listener_unbuffered_handover`) and
+reachable states in which the listener is inactive after `Close` (hypothesis of `C14_listener_no_carry_over`); and a
+reachable state in which BOTH threads are about to access memory (the producer copies the next message into a pooled slice
+while the worker processes the previous one): the quantifiers of `C14_listener_no_data_race` range over something. -/
+example : ∃ s : ListenerK.St Msg ListenerK.FileCell ListenerK.FileSets,
+    ListenerK.Reachable ListenerK.processMesg none 0 ListenerK.defaultSets [.onMesg default, .file] s ∧ ListenerK.isFin s.p = false ∧ s.N = 0 :=
+  ⟨_, ListenerK.reachable_runSched ListenerK.processMesg none [true, true] _ _ ListenerK.Reachable.init rfl, rfl, rfl⟩
 
-example : ∃ s : Listener.St Msg Listener.FileCell,
-    Listener.Reachable Listener.processMesg none 0 [.close, .onMesg default] s ∧ s.active = false ∧ s.N = 0 :=
-  ⟨_, Listener.reachable_runSched Listener.processMesg none [true, true, true, false, true] _ _ Listener.Reachable.init rfl, rfl, rfl⟩
+example : ∃ s : ListenerK.St Msg ListenerK.FileCell ListenerK.FileSets,
+    ListenerK.Reachable ListenerK.processMesg none 0 ListenerK.defaultSets [.close, .onMesg default] s ∧ s.active = false ∧ s.N = 0 :=
+  ⟨_, ListenerK.reachable_runSched ListenerK.processMesg none [true, true, true, false, true] _ _ ListenerK.Reachable.init rfl, rfl, rfl⟩
+
+example : ∃ s : ListenerK.St Msg ListenerK.FileCell ListenerK.FileSets,
+    ListenerK.Reachable ListenerK.processMesg none 2 ListenerK.defaultSets [.onMesg default, .onMesg default] s ∧
+    ListenerK.accP s ≠ [] ∧ ListenerK.accC s ≠ [] :=
+  ⟨_, ListenerK.reachable_runSched ListenerK.processMesg none [true, true, true, false, true] _ _ ListenerK.Reachable.init rfl,
+    by decide, by decide⟩
 
 end Fit.C14
